@@ -165,7 +165,11 @@ Fixpoint exec (gas fuel : nat) (cur : Z) (b : list sstmt) (d : dstate) {struct g
         end in
       match s with
       | TLine _ => continue f d
-      | TPrint e => rval d cur e (fun z => bout [z] (continue f d))
+      | TPrint e =>
+          match soft_div d e with
+          | Some neg => bout (soft_out neg) (continue f d)
+          | None => rval d cur e (fun z => bout [z] (continue f d))
+          end
       | TLet v e => rval d cur e (fun z =>
           if in16 z then continue f (d_setv d v z) else BStop [] (Stopped flow_E_OVERFLOW cur))
       | TFor v a b s named body =>
